@@ -28,13 +28,13 @@ class C17(HistoryProperty):
     )
     ASSUMPTIONS = ["backend faults are limited to the kinds the statement lists", "stub bodies are deterministic"]
     REAL = HistoryProperty.REAL
-    STUBS = HistoryProperty.STUBS + ["FaultyCache(Cache): fingerprint-keyed dict with a scripted fault per global call index"]
+    STUBS = HistoryProperty.STUBS + ["FaultyCache(Cache): fingerprint-keyed dict with a scripted fault per global call index", "FaultyCacheDefaultExists(Cache): same, relying on the ABC default exists()", "FaultyMemoryCache(MemoryCache): inherited get/set, own (possibly stale) index for exists()"]
     QUICK = {"runs": 350, "wall": 45}
     THOROUGH = {"runs": 60000, "wall": 540}
     REQUIRED_CACHE = None
 
     def spec_valid(self, spec):
-        if any(n["k"] == "dataset" and n.get("cache") not in ("faulty", "faulty_ne") for n in spec["nodes"]):
+        if any(n["k"] == "dataset" and n.get("cache") not in ("faulty", "faulty_ne", "faulty_mc") for n in spec["nodes"]):
             return False
         return gen.spec_ok(spec)
 
@@ -57,7 +57,9 @@ class C17(HistoryProperty):
                 {"k": "dataset", "name": "OVERCOALESCE", "args": {"a": f"q{k + 3}"}, "id": f"q{k + 4}"},
             ]
             spec["roots"] = spec["roots"] + [f"q{k + 3}", f"q{k + 4}"]
-        kind = "faulty_ne" if rng.random() < 0.4 else "faulty"  # faulty_ne: a backend that relies on the default exists()
+        # faulty_ne: a backend that relies on the ABC's default exists(); faulty_mc: one built on labrea's MemoryCache
+        # (inherited get/set) with an index of its own for exists()
+        kind = rng.choice(["faulty", "faulty", "faulty_ne", "faulty_ne", "faulty_mc"])
         for n in spec["nodes"]:
             if n["k"] == "dataset" and n.get("cache", "default") == "default":
                 n["cache"] = kind
